@@ -1,10 +1,15 @@
 import Rscp.Props.C03
+import Rscp.Props.C03b
 import Rscp.Tie.Reader
 
 #print axioms Rscp.Props.C03.accept_iff_wf
 #print axioms Rscp.Props.C03.reject_is_error
 #print axioms Rscp.Props.C03.decode_total
 #print axioms Rscp.Props.C03.chunking
+#print axioms Rscp.Props.C03.wellformed_piece_answer
+#print axioms Rscp.Props.C03.wellformed_in_pieces
+#print axioms Rscp.Props.C03.wellformed_last_piece
+#print axioms Rscp.Props.C03.wellformed_delivered
 #print axioms Rscp.Tie.Reader.shape_rscp_readHeader
 #print axioms Rscp.Tie.Reader.shape_rscp_truncatePadding
 #print axioms Rscp.Tie.Reader.shape_rscp_read
